@@ -6,4 +6,15 @@ cd /repo && git diff --quiet || { echo "/repo not clean"; exit 2; }
 git apply /verif/seeded/$SID/patch.diff || git apply --3way /verif/seeded/$SID/patch.diff || { echo "patch does not apply"; exit 2; }
 cd /verif && ./check $PID --tier $TIER > /tmp/try_$SID.log 2>&1; RC=$?
 cd /repo && git checkout -q -- . 
+/venv/bin/python - $SID $PID $TIER $RC <<'P'
+import json, sys, re
+sid, pid, tier, rc = sys.argv[1:]
+log = open('/tmp/try_%s.log' % sid).read()
+sites = sorted(set(re.findall(r"^  site=([^:]+(?::[^: ]+)*)", log, re.M)))
+mp = '/verif/seeded/%s/meta.json' % sid
+m = json.load(open(mp))
+m["detected_by"] = {"check": "./check %s --tier %s" % (pid, tier), "exit": int(rc), "sites": sites[:8]} if rc == "1" else \
+    {"check": "./check %s --tier %s" % (pid, tier), "exit": int(rc), "sites": [], "note": "NOT detected"}
+json.dump(m, open(mp, "w"), indent=1)
+P
 echo "$SID ($PID, $TIER): check exit $RC; $(grep -c '^VIOLATION' /tmp/try_$SID.log) violation lines; first: $(grep -A1 '^VIOLATION' /tmp/try_$SID.log | sed -n 2p | cut -c1-200)"
